@@ -135,6 +135,14 @@ def max_value(F, b, t, block, depth=0):
                 return 64 if width_field_ok(F, gb) else None
     if t[0] == "field" and t[2] == "width" and self_path(t) == ["width"]:
         return 64
+    if t[0] == "field" and t[2] == "width":
+        from guards import ctor_payload_width
+        if ctor_payload_width(t) is not None:
+            return 64           # the width field of what a validating constructor returned
+    if block is not None:
+        from guards import validated_by_ctor
+        if validated_by_ctor(facts_at(b, block), t):
+            return 64           # `IntVector::new(t)?` accepted it
     if t[0] == "var" and depth < 8:
         # a local assigned in several arms (`let w = if fast { a } else { b }`): bounded if every assignment is
         ds = b.defs().get(t[1], [])
@@ -305,7 +313,54 @@ def reviewed(ctx, b, bi, t, cname, key, where, tag):
         else:
             ok = any(f[0] == "cmp" and f[1] == "Lt" and self_path(f[2]) == ["next", "0"] and self_path(f[3]) == ["limit", "0"] for f in fs)
             residue = "scan dominated by next.0 < limit.0"
+        if ok and b.name.endswith("::next_back"):
+            # the backward scan starts in the word that holds bit limit.1 - 1 (limit.1 is exclusive and may equal the length, whose
+            # word does not exist when the length is a multiple of 64): limit.1 is decremented before its word index is taken
+            start = backward_scan_start(b)
+            residue += "; first word read is that of limit.1 - 1"
+            if start is not True:
+                ctx.ob("C08.R1.unsafe-site-discharged", key + tag, where, start, "reviewed-invariant",
+                       "%s; structural residue: %s -> %s" % (reason, residue, "the word index is taken from the exclusive limit itself" if start is False else "start of the scan not recognised"),
+                       positive=start is False)
+                return
     ctx.ob("C08.R1.unsafe-site-discharged", key + tag, where, ok, "reviewed-invariant", "%s; structural residue checked: %s -> %s" % (reason, residue, ok))
+
+
+def backward_scan_start(b):
+    """True: the word index of the backward scan is split_offset(limit.1 - 1), directly or after storing the decremented limit;
+    False: it is split_offset(limit.1) of the undecremented exclusive limit; None: neither shape."""
+    res = None
+    for bi, t in b.calls():
+        if callee_name(t) != "bits::split_offset":
+            continue
+        a = strip_casts(b.term_of_operand(t["args"][0]))
+        if a[0] == "bin" and a[1] in ("Sub", "SubWithOverflow") and self_path(a[2]) == ["limit", "1"] and strip_casts(a[3]) == ("const", 1):
+            return True
+        if self_path(a) != ["limit", "1"]:
+            continue
+        # a dominating store of limit.1 - 1 into the cursor
+        dec = False
+        from facts import pl
+        for sbi, si, st in b.stmts():
+            if st["s"] != "assign" or not st["lhs"]["p"] or st["lhs"]["p"][0] != "deref" or st["lhs"]["l"] != 1:
+                continue
+            v = b.term_of_rvalue(st["rv"])
+            txt = pl(st["lhs"])
+            comp = None
+            if txt.endswith(".limit") and v[0] == "tuple" and len(v[1]) == 2:
+                comp = v[1][1]
+            elif txt.endswith(".limit.1"):
+                comp = v
+            if comp is None:
+                continue
+            c = strip_casts(comp)
+            if c[0] == "bin" and c[1] in ("Sub", "SubWithOverflow") and self_path(c[2]) == ["limit", "1"] and strip_casts(c[3]) == ("const", 1):
+                if sbi == bi or b.dominates(sbi, bi):
+                    dec = True
+        if dec:
+            return True
+        res = False
+    return res
 
 
 # ---------------------------------------------------------------------------------------- main
@@ -431,6 +486,12 @@ def check_rest(ctx, F, tag, cfg):
     if cfg == "native":
         check_reinterpretation(ctx, F, "")
     mapped.check_views(ctx, F, tag, prefix="C08.R6")
+    # (borrowed) the guard of each view constructor covers what the view then reads: the length formula of the guard is the one
+    # the view is built with (C13.R2) -- a guard that rounds the byte length down lets from_raw_parts run past the map
+    import c13
+    from core import Relabel
+    if not isinstance(ctx, Relabel):
+        c13.check_config(Relabel(ctx, {"C13.R2.length-formulas-agree": "C08.R6.view-guard-covers-the-view"}), F, tag)
 
 
 def check_cursors(ctx, F, tag, prefix="C08.R4"):
